@@ -16,7 +16,8 @@ TECHNIQUE = ('bounded exhaustive enumeration of inputs (all 1- and 2-bin dataset
              'against a scalar reference (sum over used bins, ndf, regularised incomplete gamma), incl. every bin permutation')
 RULE = ('(A) every pair of 1-bin and 2-bin datasets over values {-2, 0, 1, 1.3, 4} x errors {0, 0.1, 1} (all zero-error patterns), both '
         'settings of ignore_empty, alpha in {0.01, 0.05, 0.5}; 1-bin datasets also with NaN / inf values and errors when the option is '
-        'off; (B) every assignment of 6 bin classes (small / large contribution, one zero error, both zero & equal, both zero & '
+        'off; small magnitudes: values {0, 1e-10, 1.1e-10, 5e-9} x errors {0, 1e-12, 1e-9, 0.1} as 1-bin datasets and paired with 5 class '
+        'bins (an error of 1e-12 is not an empty bin); (B) every assignment of 6 bin classes (small / large contribution, one zero error, both zero & equal, both zero & '
         'different, NaN value) to 3-4 bins in shapes (3,), (4,), (2,2), both options, with the statistic re-evaluated under every '
         'permutation of the bins; (C) every ordered pair and triple of 8 representative compared datasets (pass, fail, NaN statistic, '
         'infinite statistic, all bins empty, ...) against one reference dataset; non-trivial = inputs with at least one zero error, NaN '
